@@ -301,7 +301,8 @@ def run_group(ctx, noise, idx, all_targets, means_used, joint_idx, replay_base, 
                 mu, var = st.predict(ctx.P[np.array(tall)])
                 r = rct.at(tall)
                 compare(ctx, "textbook/mean", pat, mu, r["mean"], r["tol_mean"], rp)
-                compare(ctx, "textbook/var", pat, var, np.maximum(r["var"], ck.FLOOR), r["tol_var"], rp)
+                compare(ctx, "textbook/var", pat, var, np.maximum(r["var"], ck.FLOOR), r["tol_var"], rp,
+                        alt=np.maximum(r["var_alt"], ck.FLOOR))
             except Exception:  # noqa: BLE001  (already reported above)
                 pass
         ck.check_gpr(ctx, k0, noise, rc_use, c0, Y[:, c0], tall, pat, rp)
@@ -359,27 +360,67 @@ class Node:
     __slots__ = ("st", "idx", "Y", "m", "seq", "appended", "diag", "rc", "noise")
 
 
-def _node_ref(ctx, nd, k):
-    extra = np.array([ctx.gap[i, i] if a else 0.0 for i, a in zip(nd.idx, nd.appended)])
-    return RefCase(ctx, nd.idx, nd.diag, nd.Y, [k] * nd.m, extra_diag=extra)
+def _node_ref(ctx, nd, k, mirror=True):
+    """Reference for a node.  mirror=False: the consistent dense definition (every diagonal entry = k(x,x) of forward()
+    + noise).  mirror=True: rows appended by update()/sample_and_update() carry KernelFunction.diagonal() + noise on the
+    diagonal, which is what cholesky_update uses; it exceeds the forward() value by ctx.dgap (<= 1e-9/2 * k(x,x))."""
+    diag = nd.diag
+    if mirror:
+        diag = diag + np.array([ctx.dgap[i] if a else 0.0 for i, a in zip(nd.idx, nd.appended)])
+    return RefCase(ctx, nd.idx, diag, nd.Y, [k] * nd.m)
+
+
+def _probe_node(ctx, nd, rc, test_idx, pat, rp, record, out):
+    cols = list(range(nd.m))
+    ok = ck.check_predict(ctx, nd.st, rc, cols, test_idx, pat, rp, kind="incr-predict", record=record, pred=out[0])
+    if nd.m == 1:
+        ok &= ck.check_nlml(ctx, nd.st, rc, 0, pat, rp, kind="incr-nlml", record=record, val=out[1])
+    return ok
 
 
 def check_node(ctx, nd, k, test_idx, rp):
+    """Incremental state == from-scratch dense reference on the same data.
+
+    Compared first with the consistent definition; if that fails but the state equals the reference whose appended
+    diagonal entries are diagonal()+noise, the difference is exactly the diagonal()-vs-forward() mismatch and is
+    reported under its own key (incr/diagonal-vs-forward-gap)."""
     pat = f"{ctx.fam}:seq={nd.seq}:{ck.dup_pattern(ctx.d, nd.idx)}:{'m=1' if nd.m == 1 else 'm>1'}"
-    nd.rc = _node_ref(ctx, nd, k)
     ctx.cov.add("transitions")
     if len(nd.idx) >= 2 and ("S" in nd.seq or "E" in nd.seq):
         # data sets containing sampled targets / expanded fantasy columns do not occur in the from-scratch blocks
         ctx.keys.add(("Q", float(nd.diag[0]), k, tuple(nd.idx), tuple(np.round(nd.Y, 12).ravel())))
-    if nd.rc.singular:
+    strict = _node_ref(ctx, nd, k, mirror=False)
+    nd.rc = strict
+    if strict.singular:
         ctx.cov.outcome("excluded_numerically_singular")
         ctx.cov.add("excluded_numerically_singular_groups")
         return pat
-    ctx.cov.outcome("compared_mp_reference" if nd.rc.mp else "compared_float_reference")
-    cols = list(range(nd.m))
-    ck.check_predict(ctx, nd.st, nd.rc, cols, test_idx, pat, rp, kind="incr-predict")
-    if nd.m == 1:
-        ck.check_nlml(ctx, nd.st, nd.rc, 0, pat, rp, kind="incr-nlml")
+    ctx.cov.outcome("compared_mp_reference" if strict.mp else "compared_float_reference")
+    try:
+        out = (nd.st.predict(ctx.P[np.array(test_idx)]),
+               float(nd.st.neg_log_likelihood()) if nd.m == 1 else None)
+    except Exception as e:  # noqa: BLE001
+        ctx.V.add(f"exc/incr-predict:{type(e).__name__}:{pat}", f"predict / neg_log_likelihood on the updated state "
+                  f"raised {type(e).__name__}: {e}", rp)
+        return pat
+    if _probe_node(ctx, nd, strict, test_idx, pat, rp, False, out):
+        _probe_node(ctx, nd, strict, test_idx, pat, rp, True, out)        # counts + ratios
+        return pat
+    has_gap = any(a and ctx.dgap[i] > 0 for i, a in zip(nd.idx, nd.appended))
+    mirror = _node_ref(ctx, nd, k, mirror=True) if has_gap else None
+    if mirror is not None and not mirror.singular and _probe_node(ctx, nd, mirror, test_idx, pat, rp, False, out):
+        nd.rc = mirror
+        ctx.cov.outcome("incr_equals_scratch_only_with_diagonal_gap")
+        r_s, r_m = strict.at(test_idx), mirror.at(test_idx)
+        dm = float(np.max(np.abs(r_s["mean"] - r_m["mean"])))
+        tm = float(np.max(r_s["tol_mean"]))
+        ctx.V.add(f"incr/diagonal-vs-forward-gap:{ctx.fam}:{ck.dup_pattern(ctx.d, nd.idx)}",
+                  f"state after {nd.seq} differs from the from-scratch posterior on the same data beyond the rounding "
+                  f"bound (predictive mean by up to {dm:.3g}, bound {tm:.3g}) but equals the dense posterior whose "
+                  f"appended diagonal entries are kernel.diagonal()+noise instead of kernel(x,x)+noise "
+                  f"(difference {max(ctx.dgap[i] for i in nd.idx):.3g})", rp)
+        return pat
+    _probe_node(ctx, nd, strict, test_idx, pat, rp, True, out)
     return pat
 
 
@@ -419,13 +460,16 @@ def apply_op(ctx, nd, op, k, rp):
                 zz = z.copy()
                 if mask is not None:
                     zz[mask] = 0.0
-                v = max(float(r["var"][0]), ck.FLOOR)
-                tv = float(r["tol_var"][0])
-                sd = math.sqrt(v)
-                dsd = max(math.sqrt(v + tv) - sd, sd - math.sqrt(max(v - tv, ck.FLOOR)))
-                ref = r["mean"][0] + zz * sd
-                tol = r["tol_mean"][0] + np.abs(zz) * dsd + 4 * tl.U * (np.abs(r["mean"][0]) + np.abs(zz) * sd)
-                compare(ctx, "sample_and_update/target", pat, y[0], ref, tol, rp)
+                refs = []
+                for key in ("var", "var_alt"):
+                    v = max(float(r[key][0]), ck.FLOOR)
+                    tv = float(r["tol_var"][0])
+                    sd = math.sqrt(v)
+                    dsd = max(math.sqrt(v + tv) - sd, sd - math.sqrt(max(v - tv, ck.FLOOR)))
+                    refs.append((r["mean"][0] + zz * sd,
+                                 r["tol_mean"][0] + np.abs(zz) * dsd + 4 * tl.U * (np.abs(r["mean"][0]) + np.abs(zz) * sd)))
+                compare(ctx, "sample_and_update/target", pat, y[0], refs[0][0], np.maximum(refs[0][1], refs[1][1]), rp,
+                        alt=refs[1][0])
         ch.idx = nd.idx + (x,)
         ch.m = nd.m
         ch.Y = np.vstack([nd.Y, y])
